@@ -10,8 +10,10 @@
 #include "hutil.h"
 #include <pthread.h>
 #include <stdarg.h>
+#include <stddef.h>
 #include <signal.h>
 #include <unistd.h>
+#include <sys/time.h>
 #include "src/vbi.h"
 #include "src/hamm.h"
 #include "src/cache.h"
@@ -50,7 +52,7 @@ static void out(const char *fmt, ...)
 }
 
 /* ---- script table --------------------------------------------------------------------- */
-struct call { int kind /* 0 reg 1 add */, fn, oom; unsigned user, mask; };
+struct call { int kind /* 0 reg 1 add */, fn, oom; unsigned user, mask; int wrapper /* unreg / remove: through vbi_event_handler_unregister / _remove */; };
 struct script { int n; struct call c[MAX_SCRIPT_LEN]; };
 struct tentry { int fn; unsigned user; int nscripts; struct script *scripts; int invocations; };
 static struct tentry *table; static int ntable, nscripts_total;
@@ -109,7 +111,11 @@ static void do_call(const struct call *c)
 	planted = NULL;
 	if (NULL == vbi->triggers) { planted = (vbi_trigger *) __real_calloc(1, 4096); vbi->triggers = planted; }
 	fail_next_calloc = c->oom;
-	if (c->kind == 0)
+	if (c->wrapper && c->kind == 0) {
+		vbi_event_handler_unregister(vbi, hfn[c->fn], (void *)(uintptr_t) c->user); r = TRUE;
+	} else if (c->wrapper) {
+		vbi_event_handler_remove(vbi, hfn[c->fn]); r = TRUE;
+	} else if (c->kind == 0)
 		r = vbi_event_handler_register(vbi, (int) c->mask, hfn[c->fn], (void *)(uintptr_t) c->user);
 	else
 		r = vbi_event_handler_add(vbi, (int) c->mask, hfn[c->fn], (void *)(uintptr_t) c->user);
@@ -178,9 +184,9 @@ static int parse_call(char **w, int n, struct call *c)
 {
 	memset(c, 0, sizeof *c);
 	if (n == 4 && (!strcmp(w[0], "reg") || !strcmp(w[0], "reg!"))) { c->kind = 0; c->oom = w[0][3] == '!'; return pfn(w[1], &c->fn) && p32(w[2], &c->user) && p32(w[3], &c->mask); }
-	if (n == 3 && !strcmp(w[0], "unreg")) { c->kind = 0; return pfn(w[1], &c->fn) && p32(w[2], &c->user); }
+	if (n == 3 && !strcmp(w[0], "unreg")) { c->kind = 0; c->wrapper = 1; return pfn(w[1], &c->fn) && p32(w[2], &c->user); }
 	if (n == 4 && (!strcmp(w[0], "add") || !strcmp(w[0], "add!"))) { c->kind = 1; c->oom = w[0][3] == '!'; return pfn(w[1], &c->fn) && p32(w[2], &c->user) && p32(w[3], &c->mask); }
-	if (n == 2 && !strcmp(w[0], "remove")) { c->kind = 1; return pfn(w[1], &c->fn); }
+	if (n == 2 && !strcmp(w[0], "remove")) { c->kind = 1; c->wrapper = 1; return pfn(w[1], &c->fn); }
 	return 0;
 }
 
@@ -470,31 +476,155 @@ static int valid_pgno(long long p)
 	return p >= 0x100 && p <= 0x899 && ((p >> 4) & 15) <= 9 && (p & 15) <= 9;
 }
 
-/* an op that does not return (self-deadlock on event_mutex) ends the process at once, so the
-   check driver attributes it to the case instead of waiting for its batch watchdog */
+/* ---- vbi_event_enable on a decoder full of sentinels ---------------------------------------- */
+static void hE(vbi_event *ev, void *user) { (void) ev; (void) user; }
+
+static int all_bytes(const void *p, size_t n, int v)
+{
+	const unsigned char *b = (const unsigned char *) p; size_t i;
+	for (i = 0; i < n; ++i) if (b[i] != (unsigned char) v) return 0;
+	return 1;
+}
+/* 0 = reset state, 7 = sentinel untouched, 9 = anything else */
+static int tri(int is_reset, int is_planted) { return is_reset ? 0 : is_planted ? 7 : 9; }
+
+static void plant_pi(vbi_program_info *pi)
+{
+	pi->month = 7; pi->title[0] = 'x'; pi->rating_auth = (vbi_rating_auth) 7; pi->cgms_a = 7;
+	pi->aspect.first_line = 7; pi->description[7][0] = 'x'; pi->caption_language[7] = "x";
+	pi->audio[1].mode = (vbi_audio_mode) 7; pi->elapsed_sec = 7;
+}
+static int pi_state(const vbi_program_info *pi)
+{
+	int r = pi->month == -1 && pi->title[0] == 0 && pi->rating_auth == VBI_RATING_AUTH_NONE && pi->cgms_a == -1
+		&& pi->aspect.first_line == -1 && pi->description[7][0] == 0 && pi->caption_language[7] == NULL
+		&& pi->audio[1].mode == VBI_AUDIO_MODE_UNKNOWN && pi->elapsed_sec == -1;
+	int s = pi->month == 7 && pi->title[0] == 'x' && (int) pi->rating_auth == 7 && pi->cgms_a == 7
+		&& pi->aspect.first_line == 7 && pi->description[7][0] == 'x' && pi->caption_language[7] != NULL
+		&& (int) pi->audio[1].mode == 7 && pi->elapsed_sec == 7;
+	return tri(r, s);
+}
+
+#define EXCL(f) { offsetof(struct vbi_decoder, f), sizeof(((struct vbi_decoder *) 0)->f) }
+static void op_enab(unsigned old, unsigned new_)
+{
+	static const struct { size_t off, len; } excl[] = {
+		EXCL(network), EXCL(triggers), EXCL(prog_info), EXCL(aspect_source), EXCL(vt), EXCL(cc),
+		EXCL(event_mutex), EXCL(event_mask), EXCL(handlers), EXCL(next_handler), EXCL(vps_pid),
+		EXCL(cni_cycle), EXCL(cni_announced) };
+	vbi_decoder *v = vbi_decoder_new();
+	unsigned char *snap; vbi_trigger *planted; size_t i, k; int rest = 7, trg;
+	if (!v) { printf("rej oom\n"); return; }
+	if (old) vbi_event_handler_register(v, (int) old, hE, NULL);
+	/* sentinels */
+	v->cn->have_top = 7; v->cn->initial_page.pgno = 0x777;
+	v->cc.xds = 7; v->cc.info_cycle[0] = 7;
+	memset(&v->network, 0x77, sizeof v->network);
+	memset(v->cni_cycle, 0x77, sizeof v->cni_cycle);
+	memset(v->cni_announced, 0x77, sizeof v->cni_announced);
+	vbi_trigger_flush(v);
+	planted = (vbi_trigger *) __real_calloc(1, 4096); v->triggers = planted;
+	plant_pi(&v->prog_info[0]); plant_pi(&v->prog_info[1]);
+	/* `future` is a one bit field: the sentinel is the opposite of the value the reset stores */
+	v->prog_info[0].future = 1; v->prog_info[1].future = 0;
+	v->aspect_source = 7;
+	memset(&v->vps_pid, 0x77, sizeof v->vps_pid);
+	/* plain data in the rest of the struct gets non-default values too, so that a stray reset shows */
+	v->time = 7.0; v->chswcd = 7; v->brightness = 7; v->contrast = 7; v->pageref = 7;
+	v->wss_last[0] = 7; v->wss_last[1] = 7; v->wss_rep_ct = 7; v->wss_time = 7.0;
+	snap = (unsigned char *) malloc(sizeof *v);
+	memcpy(snap, v, sizeof *v);
+	/* vbi_event_enable (v, new) with v->event_mask == old */
+	vbi_event_handler_register(v, (int) new_, hE, NULL);
+	for (i = 0; i < sizeof *v; ++i) {
+		int skip = 0;
+		for (k = 0; k < sizeof excl / sizeof excl[0]; ++k) if (i >= excl[k].off && i < excl[k].off + excl[k].len) skip = 1;
+		if (!skip && ((unsigned char *) v)[i] != snap[i]) rest = 9;
+	}
+	free(snap);
+	trg = v->triggers == NULL ? 0 : v->triggers == planted ? 7 : 9;
+	printf("ok em=%u ttx=%d cc=%d net=%d cyc=%d ann=%d trg=%d pi0=%d pi1=%d fut0=%d fut1=%d asp=%d pid=%d rest=%d\n",
+	       (unsigned) v->event_mask,
+	       tri(v->cn->have_top == 0 && v->cn->initial_page.pgno == 0x100, v->cn->have_top == 7 && v->cn->initial_page.pgno == 0x777),
+	       tri(v->cc.xds == 0 && v->cc.info_cycle[0] == 0, v->cc.xds == 7 && v->cc.info_cycle[0] == 7),
+	       tri(all_bytes(&v->network, sizeof v->network, 0), all_bytes(&v->network, sizeof v->network, 0x77)),
+	       tri(all_bytes(v->cni_cycle, sizeof v->cni_cycle, 0), all_bytes(v->cni_cycle, sizeof v->cni_cycle, 0x77)),
+	       tri(all_bytes(v->cni_announced, sizeof v->cni_announced, 0), all_bytes(v->cni_announced, sizeof v->cni_announced, 0x77)),
+	       trg, pi_state(&v->prog_info[0]), pi_state(&v->prog_info[1]),
+	       v->prog_info[0].future == 1 ? 7 : 0, v->prog_info[1].future == 0 ? 7 : 1, v->aspect_source,
+	       tri(all_bytes(&v->vps_pid, sizeof v->vps_pid, 0), all_bytes(&v->vps_pid, sizeof v->vps_pid, 0x77)), rest);
+	/* neutral values again, then delete */
+	v->chswcd = 0;
+	if (v->triggers == planted) { v->triggers = NULL; free(planted); }
+	memset(&v->network, 0, sizeof v->network);
+	v->cn->have_top = 0; v->cc.xds = 0; v->cc.info_cycle[0] = 0;
+	v->prog_info[0].caption_language[7] = NULL; v->prog_info[1].caption_language[7] = NULL;
+	vbi_decoder_delete(v);
+}
+
+/* Watchdog.  Every op - and the teardown of a case (vbi_decoder_delete, which unregisters every
+   handler in a loop and therefore spins for ever when unregistering does not unlink) - runs under
+   two timers: 1 s of CPU time of this process (ITIMER_PROF: a spinning loop; independent of the load
+   of the machine) and 5 s wall (alarm: blocked on event_mutex).  When one fires the process says
+   what it was doing and ends at once with exit code 94, so the check driver attributes the hang to
+   the case instead of waiting for its batch timeout. */
+static const char *phase = "start-up";
+static char cur_op[200];
+static void say_phase(void)
+{
+	static const char a[] = "PHASE: ";
+	if (write(2, a, sizeof a - 1) < 0) return;
+	if (write(2, phase, strlen(phase)) < 0) return;
+	if (cur_op[0] && write(2, cur_op, strlen(cur_op)) < 0) return;
+	if (write(2, "\n", 1) < 0) return;
+}
 static void on_alarm(int sig)
 {
-	static const char msg[] = "ERROR: HANG: the operation did not return within 10 s (deadlock on event_mutex?)\n";
-	(void) sig;
-	if (write(2, msg, sizeof msg - 1) < 0) _exit(94);
+	static const char m1[] = "ERROR: HANG: the operation used more than 1 s of CPU time (endless loop?)\n";
+	static const char m2[] = "ERROR: HANG: the operation did not return within 5 s (deadlock on event_mutex?)\n";
+	if (sig == SIGPROF) { if (write(2, m1, sizeof m1 - 1) < 0) _exit(94); }
+	else if (write(2, m2, sizeof m2 - 1) < 0) _exit(94);
+	say_phase();
 	_exit(94);
+}
+/* called by AddressSanitizer before it prints a report */
+void __asan_on_error(void);
+void __asan_on_error(void) { say_phase(); }
+static void arm(const char *ph)
+{
+	struct itimerval it;
+	int i; size_t n = 0;
+	phase = ph; cur_op[0] = 0;
+	if (!strcmp(ph, "op: ")) {
+		for (i = 0; i < h_ntok && n + strlen(h_tok[i]) + 2 < sizeof cur_op; ++i)
+			n += (size_t) snprintf(cur_op + n, sizeof cur_op - n, "%s%s", i ? " " : "", h_tok[i]);
+	}
+	memset(&it, 0, sizeof it); it.it_value.tv_sec = 1;
+	setitimer(ITIMER_PROF, &it, NULL);
+	alarm(5);
 }
 
 int main(void)
 {
 	int r;
 	signal(SIGALRM, on_alarm);
+	signal(SIGPROF, on_alarm);
+	arm("start-up");
 	reset_all();
 	while ((r = h_next())) {
 		struct call c; unsigned v; int f; long long ll;
-		alarm(10);
-		if (r == 2) { reset_all(); continue; }
+		if (r == 2) { arm("teardown of the previous case (vbi_decoder_delete, _vbi_event_handler_list_destroy)"); reset_all(); continue; }
+		arm("op: ");
 		olen = 0; out("ok");
 		if (lop()) continue;
 		if (H_IS(0, "consts") && h_ntok == 1) {
 			printf("ok close=%d ttx=%d caption=%d network=%d trigger=%d aspect=%d proginfo=%d netid=%d localtime=%d progid=%d\n",
 			       VBI_EVENT_CLOSE, VBI_EVENT_TTX_PAGE, VBI_EVENT_CAPTION, VBI_EVENT_NETWORK, VBI_EVENT_TRIGGER,
 			       VBI_EVENT_ASPECT, VBI_EVENT_PROG_INFO, VBI_EVENT_NETWORK_ID, VBI_EVENT_LOCAL_TIME, VBI_EVENT_PROG_ID);
+		} else if (H_IS(0, "enab") && h_ntok == 3) {
+			unsigned o, n2;
+			if (!p32(h_tok[1], &o) || !p32(h_tok[2], &n2)) printf("rej parse\n");
+			else op_enab(o, n2);
 		} else if (H_IS(0, "script") && h_ntok == 4) {
 			struct script sc; unsigned u;
 			if (!pfn(h_tok[1], &f) || !p32(h_tok[2], &u) || !parse_script(h_tok[3], &sc)) printf("rej parse\n");
@@ -535,10 +665,11 @@ int main(void)
 			do_call(&c);
 			dump(); printf("%s\n", obuf);
 		} else if (h_ntok >= 1 && (H_IS(0, "script") || H_IS(0, "reg") || H_IS(0, "reg!") || H_IS(0, "unreg") || H_IS(0, "add")
-			   || H_IS(0, "add!") || H_IS(0, "remove") || H_IS(0, "send") || H_IS(0, "ttx") || H_IS(0, "consts")))
+			   || H_IS(0, "add!") || H_IS(0, "remove") || H_IS(0, "send") || H_IS(0, "ttx") || H_IS(0, "consts") || H_IS(0, "enab")))
 			printf("rej parse\n");
 		else printf("rej op\n");
 	}
+	arm("teardown of the last case (vbi_decoder_delete, _vbi_event_handler_list_destroy)");
 	if (mutex_held()) pthread_mutex_unlock(&vbi->event_mutex);
 	vbi_decoder_delete(vbi);
 	{ int i; for (i = 0; i < ntable; ++i) free(table[i].scripts); }
